@@ -306,6 +306,7 @@ type c04Stored struct { // a request as stored in the transient queue
 	Lim     sdkmath.Int
 	Key     []byte
 	RPfx    []byte
+	Probe   []c04Hop // hops of the dry run made when the message was delivered (amounts priced at that moment)
 }
 
 type c04Hop struct {
@@ -513,6 +514,76 @@ func c04MinimalOk(r *c04Stored) string {
 		ins = nil
 	}
 	return fmt.Sprintf("(mkCh false [%s] [%s])", strings.Join(ins, "; "), strings.Join(hs, "; "))
+}
+
+// the hops c04MinimalOk stands for, as bank operations: every hop but the last pays the sender, the last the stored recipient
+func c04MinimalHops(r *c04Stored) []c04Hop {
+	n := len(r.Pools)
+	var hs []c04Hop
+	prev := r.Amt
+	for i, p := range r.Pools {
+		to := r.Sender
+		if i == n-1 {
+			to = r.Rcpt
+		}
+		in, out := sdkmath.OneInt(), sdkmath.OneInt()
+		if r.IsIn {
+			in = prev
+			if i == n-1 && r.Lim.GT(sdkmath.OneInt()) {
+				out = r.Lim
+			}
+			prev = out
+		} else if i == n-1 {
+			out = r.Amt
+		}
+		pa := ammtypes.NewPoolAddress(p).String()
+		cin, cout := sdk.NewCoin(r.Denoms[i], in), sdk.NewCoin(r.Denoms[i+1], out)
+		hs = append(hs, c04Hop{Sender: r.Sender, Rcpt: to, Pool: p, In: cin, Out: cout, Ops: []BankOp{
+			{Kind: "send", From: r.Sender, To: pa, Denom: cin.Denom, Amt: in}, {Kind: "send", From: pa, To: to, Denom: cout.Denom, Amt: out}}})
+	}
+	return hs
+}
+
+// c04SimOK: would the model's settlement accept these hops for request r on this bank (balances of the tracked accounts)?
+// The request's own limit must hold and no tracked account may be overdrawn by any of the transfers, in their order.
+func c04SimOK(bank map[string]*big.Int, r *c04Stored, hops []c04Hop) bool {
+	if len(hops) != len(r.Pools) || len(hops) == 0 {
+		return false
+	}
+	if r.IsIn && hops[len(hops)-1].Out.Amount.LT(r.Lim) {
+		return false
+	}
+	if !r.IsIn && hops[0].In.Amount.GT(r.Lim) {
+		return false
+	}
+	b := map[string]*big.Int{}
+	get := func(k string) *big.Int {
+		if v, ok := b[k]; ok {
+			return v
+		}
+		if v, ok := bank[k]; ok {
+			b[k] = new(big.Int).Set(v)
+			return b[k]
+		}
+		return nil
+	}
+	for _, hp := range hops {
+		for _, o := range hp.Ops {
+			if o.Kind != "send" || !o.Amt.IsPositive() {
+				return false
+			}
+			if v := get(o.From + "|" + o.Denom); v != nil {
+				if v.Cmp(o.Amt.BigInt()) < 0 {
+					return false
+				}
+				v.Sub(v, o.Amt.BigInt())
+			}
+			if v := get(o.To + "|" + o.Denom); v != nil {
+				v.Add(v, o.Amt.BigInt())
+			}
+		}
+	}
+	return true
 }
 
 func c04Bytes(b []byte) string {
@@ -760,6 +831,7 @@ func (x *c04Run) block(bi int, blk c04Block) (caseText, fp string, nontrivial bo
 		}
 		choice := c04FailChoice
 		var achievable sdkmath.Int
+		var probeHops []c04Hop
 		probeOK := false
 		if routeOK && len(pools) > 0 {
 			cctx, _ := w.Ctx().CacheContext()
@@ -781,7 +853,7 @@ func (x *c04Run) block(bi int, blk c04Block) (caseText, fp string, nontrivial bo
 				hp, _ := x.hops(cctx.EventManager().ABCIEvents())
 				if len(hp) == len(pools) {
 					if c, ok := x.choiceOf(isIn, hp); ok {
-						choice, probeOK = c, true
+						choice, probeOK, probeHops = c, true, hp
 					}
 				}
 			}
@@ -854,6 +926,7 @@ func (x *c04Run) block(bi int, blk c04Block) (caseText, fp string, nontrivial bo
 		// the request as the user's message states it
 		st := &c04Stored{Idx: len(stored) + 1, IsIn: isIn, Sender: sender.String(), Rcpt: rcptOrSender, MsgRcpt: rcptOrSender, ByDenom: byDenom,
 			Pools: pools, Denoms: denoms, Amt: amt, Lim: lim}
+		st.Probe = probeHops
 		if len(pools) == 0 || len(denoms) != len(pools)+1 { // nothing the model can store: only the refusal is compared
 			if res.OK() {
 				x.fail("C04:accepted-without-route", fmt.Sprintf("block %d op %d accepted although no route exists", bi, oi))
@@ -1160,6 +1233,57 @@ func (x *c04Run) block(bi int, blk c04Block) (caseText, fp string, nontrivial bo
 	// m1 deleted when its next try fails)); the two differ in the ORDER of the executions when other requests
 	// are executed in between. The script is therefore searched: outcomes of the coded loop, in a fixed
 	// preference order, with backtracking on the observed execution order; Coq then validates the script.
+	// The amounts of a try that succeeded but was discarded are not observable either; the model only needs SOME amounts
+	// its settlement accepts on the bank of that moment (the result is dropped). The smallest amounts (1 per hop, the
+	// limit on the last) are not always payable: on a route that comes back to a pool the last hop is paid out of what
+	// an earlier hop of the same request put into that pool. So the candidates are tried on the bank of the moment
+	// (balances before the block + the operations of the requests executed so far): the smallest amounts, the amounts
+	// of the dry run made when the message was delivered, the amounts of the request's own later execution.
+	bankMemo := map[int]map[string]*big.Int{}
+	bankAt := func(ai int) map[string]*big.Int {
+		if b, ok := bankMemo[ai]; ok {
+			return b
+		}
+		b := map[string]*big.Int{}
+		for key, v := range before {
+			b[key] = new(big.Int).Set(v)
+		}
+		for _, ex := range execs[:ai] {
+			for _, hp := range ex.hops {
+				for _, o := range hp.Ops {
+					if o.Kind != "send" {
+						continue
+					}
+					if v, ok := b[o.From+"|"+o.Denom]; ok {
+						v.Sub(v, o.Amt.BigInt())
+					}
+					if v, ok := b[o.To+"|"+o.Denom]; ok {
+						v.Add(v, o.Amt.BigInt())
+					}
+				}
+			}
+		}
+		bankMemo[ai] = b
+		return b
+	}
+	discardedOk := func(r *c04Stored, ai int) string {
+		b := bankAt(ai)
+		if c04SimOK(b, r, c04MinimalHops(r)) {
+			return c04MinimalOk(r)
+		}
+		if c04SimOK(b, r, r.Probe) {
+			if c, ok := x.choiceOf(r.IsIn, r.Probe); ok {
+				x.col.Op("discarded_try", "dry-run amounts", nil)
+				return c
+			}
+		}
+		if i, ok := applied[r.Idx]; ok && c04SimOK(b, r, execs[i].hops) {
+			x.col.Op("discarded_try", "amounts of the later execution", nil)
+			return realChoice(r)
+		}
+		x.col.Op("discarded_try", "no payable amounts found", nil)
+		return c04MinimalOk(r)
+	}
 	var search func(q []*c04Stored, ai int) ([]string, bool)
 	search = func(q []*c04Stored, ai int) ([]string, bool) {
 		if len(q) == 0 {
@@ -1195,17 +1319,17 @@ func (x *c04Run) block(bi int, blk c04Block) (caseText, fp string, nontrivial bo
 			}
 		}
 		if !a1 && !same { // try1 fails, try2 succeeds (discarded): m1 deleted, m2 stays
-			if r, ok := try(fmt.Sprintf("(%s, %s, false)", c04FailChoice, c04MinimalOk(m2)), c04Del(q, m1), ai); ok {
+			if r, ok := try(fmt.Sprintf("(%s, %s, false)", c04FailChoice, discardedOk(m2, ai)), c04Del(q, m1), ai); ok {
 				return r, true
 			}
 		}
 		if !a2 && !same { // try1 succeeds (discarded), try2 fails: m2 deleted, m1 stays and is selected again
-			if r, ok := try(fmt.Sprintf("(%s, %s, false)", c04MinimalOk(m1), c04FailChoice), c04Del(q, m2), ai); ok {
+			if r, ok := try(fmt.Sprintf("(%s, %s, false)", discardedOk(m1, ai), c04FailChoice), c04Del(q, m2), ai); ok {
 				return r, true
 			}
 		}
 		if a1 && next == m1.Idx { // both succeed, m1 has the lower stacked slippage: m1 executed, m2 stays
-			c2 := c04MinimalOk(m2)
+			c2 := discardedOk(m2, ai)
 			if same {
 				c2 = realChoice(m1)
 			}
@@ -1214,7 +1338,7 @@ func (x *c04Run) block(bi int, blk c04Block) (caseText, fp string, nontrivial bo
 			}
 		}
 		if a2 && next == m2.Idx && !same { // both succeed, m2 preferred: m2 executed, m1 stays
-			if r, ok := try(fmt.Sprintf("(%s, %s, false)", c04MinimalOk(m1), realChoice(m2)), c04Del(q, m2), ai+1); ok {
+			if r, ok := try(fmt.Sprintf("(%s, %s, false)", discardedOk(m1, ai), realChoice(m2)), c04Del(q, m2), ai+1); ok {
 				return r, true
 			}
 		}
